@@ -28,6 +28,9 @@ Explain(r, P, occ, ord, d, obs, exp) ==
   LET extra == obs \ exp
       missing == exp \ obs IN
   IF extra = {} /\ missing = {} THEN "ok"
+  (* `a as x' of a selective import is recorded as ONE usage spanning the whole argument: the two tokens are missing, *)
+  (* a location that is no identifier occurrence (-2) is returned instead                                             *)
+  ELSE IF missing # {} /\ missing \subseteq AliasedItemOids(FilesOf(r)[r.main]) /\ extra \subseteq {-2} THEN "AliasedImportArgIsOneUsage"
   ELSE IF (\A x \in missing : Ambiguous(P, x, ord)) /\ (\A y \in extra : (y = WholeFile /\ occ.file # r.main) \/ Ambiguous(P, y, ord))
     THEN (IF \E x \in extra : x = WholeFile THEN "ImportedFileSpanShadowsSymbols" ELSE "UsageOfEarlierPassKept")
   ELSE "no"
@@ -41,7 +44,7 @@ JudgeOcc(r, P, o) ==
       ord == OrdOf(r)
       d == occ.node
       at == " at occurrence " \o ToString(o.oid) \o " (" \o occ.name \o " in " \o occ.file \o ")"
-      U == {x.oid : x \in {y \in P.occs : y.node = -1}}       \* occurrences the model cannot resolve (untaken code, import quirks): unspecified
+      U == {x.oid : x \in {y \in P.occs : y.node \in {-1, NoNode}}}       \* occurrences the model cannot resolve (untaken code, import quirks): unspecified
       obsUses == {x.oid : x \in {y \in SeqSet(r.obs) : y.def = d /\ ~OccOf(P, y.oid).def}}
       defrow == IF d = NoNode \/ d = -1 \/ o.def = d THEN <<>>      \* -1: unresolvable name in an untaken branch (the build never evaluates it)
                 ELSE IF o.def \in Earlier(P, occ, ord)
@@ -62,7 +65,8 @@ Fold(r, P, i, acc) == IF i > Len(r.obs) THEN acc ELSE Fold(r, P, i + 1, acc \o J
 Judge(r) ==
   IF ~r.ok THEN <<>>                       \* C16 speaks about error-free projects
   ELSE LET P == Project(FilesOf(r), r.main) IN
-       IF ~r.answered
+       IF P.mav THEN <<>>           \* a macro name used as a value somewhere: not an error-free project for the analysis
+       ELSE IF ~r.answered
          THEN IF NestedIf0(FilesOf(r)[r.main], FALSE, FilesOf(r))
                 THEN <<V(r.id, "deviation", "NestedGreedyAnalysisPanics", "server died analysing an untaken branch nested in an untaken branch: " \o r.panic)>>
                 ELSE <<V(r.id, "violation", "", "the server died or did not answer a navigation request: " \o r.panic)>>
